@@ -28,12 +28,15 @@ CHECKS = {
         "design_ref": "DESIGN.md section 7 C01",
     },
     "C02": {
-        "text": ("Proved: for the plain quoters (QUOTER, PATH_QUOTER, QUERY_PART_QUOTER, FRAGMENT_QUOTER) and every string the canonical text "
-                 "stands for exactly the UTF-8 bytes of the supplied text ('+' as space under qs), and decoding it gives the text back (both "
-                 "backends). PARTIAL: for the requoters (constructor) token preservation and the escaped-vs-literal status of / & = + ; "
-                 "with segment and pair boundaries are the extracted predicate c02_pred, checked on the implementation (component texts "
-                 "exhaustive to length 2/3 over 25 class symbols in every component, builders/modifiers over 60 texts, untargeted components "
-                 "of an all-escaped base) and the model; the decode tables are proved by sweep (C04). Known finding F1b."),
+        "text": ('Proved (every string, both backends): for the plain quoters the canonical text stands for exactly the UTF-8 bytes of the '
+                 "supplied text ('+' as space under qs) and decoding it gives the text back; for the requoters (constructor) the canonical "
+                 'text stands for the bytes the supplied text stands for; DELIMITER STATUS: canonicalisation distributes over every '
+                 "literal separator ('/' in paths; '&', '=', ';' in queries) and creates none - split sep (quote s) = map quote (split sep "
+                 's) - so the number and boundaries of path segments and query pairs never change (C02_segments_and_pairs_preserved); an '
+                 'escaped delimiter stays escaped (decode table by complete sweep, C04). PARTIAL: which component each entry point hands '
+                 'to which quoter (URL-level composition) is the extracted predicate c02_pred on the implementation (component texts '
+                 'exhaustive to length 2/3 over 25 class symbols plus alias code points, builders/modifiers over 60+ texts, untargeted '
+                 'components of an all-escaped base). Known finding F1b.'),
         "design_ref": "DESIGN.md section 7 C02",
     },
     "C03": {
@@ -47,36 +50,42 @@ CHECKS = {
     },
     "C04": {
         "text": ("Proved: canonical component text is returned unchanged by the component's requoter in either backend (all texts); every "
-                 "requoter output is canonical; the literal (128 x 8) and decode (256 x 9) tables are exactly RFC 3986's by complete sweeps. "
-                 "URL-level str(URL(s)) == s is NOT proved (partial): validated on canonical URLs generated through the extracted canon "
-                 "predicate; known findings F14 (http:/p) and F27 (http://h?q) excluded."),
+                 "requoter output is canonical; the literal (128 x 8) and decode (256 x 9) tables are exactly RFC 3986's by complete "
+                 'sweeps; URL level: every canonical string with no authority or a plain lower-case ASCII host name is returned unchanged, '
+                 'str(URL(s)) = s (C04_canonical_url_unchanged, with a non-vacuity example; F14, F15 and F27 are explicit exclusions). '
+                 'PARTIAL: authorities with userinfo, ports, IDNA or IP hosts are validated on canonical URLs generated through the '
+                 'extracted canon predicate, each parsed right after its twins (same path under another authority / without one).'),
         "design_ref": "DESIGN.md section 7 C04",
     },
     "C05": {
-        "text": ("Proved: the model of the compiled quoter equals the model of the pure-Python quoter on every surrogate-free string for "
-                 "every admissible configuration; soundness of the changed flag; the shift-and-mask UTF-8 writer; the Writer delivers its "
-                 "input for every buffer size (growth boundaries cannot matter). Unquoter equality is correspondence-only. Lone-surrogate "
-                 "look-ahead residue (F1b) is a refuted witness. The tie to both real backends is a three-way differential run incl. "
-                 "outputs crossing k*8192."),
+        "text": ('Proved: the model of the compiled quoter equals the model of the pure-Python quoter on every surrogate-free string for '
+                 'every admissible configuration; the four unquoter configurations agree on EVERY string (both equal the decoding '
+                 'specification); soundness of the changed flag; the shift-and-mask UTF-8 writer; the Writer delivers its input for every '
+                 'buffer size (growth boundaries cannot matter). Lone-surrogate look-ahead residue (F1b) is a refuted witness. The tie to '
+                 "both real backends is a three-way differential run incl. outputs crossing k*8192, every sampled code point after a '%', "
+                 'alias code points, and URL-level observations.'),
         "design_ref": "DESIGN.md section 7 C05",
     },
     "C06": {
         "text": ('Proved: the unquoter models (both backends, four configurations) equal the independent greedy UTF-8 percent-decoding '
                  "specification Spec/Decode.v on EVERY string (malformed or undecodable escapes verbatim, '+' only in queries, path_safe "
                  'keeping %2F and %25), hence every decoded accessor is that decoding of its raw component; unquote(quote(t)) = t for the '
-                 "accessor pairs; query parts read back through parse_qsl; the strict UTF-8 classifier accepts exactly the encoder's "
-                 "output for all scalar values (symbolic proof); the compiled unquoter's unchanged shortcut is sound. PARTIAL: URL-level "
-                 "read-back through build/with_*/'/'/joinpath is the extracted predicate c06_pred on the implementation, not proved. Known "
-                 'finding F18 (query: U+FFFD).'),
+                 'accessor pairs; query parts read back through parse_qsl; URL-level read-back: with_fragment(t).fragment = t, '
+                 'with_path(t).path = t (rooted t, no dot-segment removal), with_name(n).name = n, (u / s).name = s, with_query(pairs) '
+                 "yields its pairs; the strict UTF-8 classifier accepts exactly the encoder's output for all scalar values (symbolic "
+                 'proof). PARTIAL: read-back through build() and with_user/with_password is the extracted predicate c06_pred on the '
+                 'implementation. Known finding F18 (query: U+FFFD).'),
         "design_ref": "DESIGN.md section 7 C06",
     },
     "C07": {
         "text": ('Proved: split_url is the RFC 3986 Appendix B decomposition of the cleaned input whenever it succeeds, fails only with '
                  'ValueError, the cleaning step and scheme alphabet are the specified ones, encoded=True stores the parts verbatim; '
-                 "split_netloc is the authority split of the statement (last '@', first ':' of the userinfo, ':' after the host or ']') on "
-                 'all strings. PARTIAL: the recomposition clause and the consistency of the stored authority with the reported parts are '
-                 'extracted predicates on the implementation (exhaustive delimiter strings, Unicode aliases of scheme characters and '
-                 'digits), not proved. Known finding F17.'),
+                 'split_netloc is the authority split of the statement on all strings; for EVERY url value str() is the recomposition of '
+                 'the raw accessors, with the two normalisations of __str__ explicit (an explicit default port is dropped and the '
+                 "authority re-assembled from the raw parts; an empty path under an authority is printed '' when no query/fragment "
+                 'follows), and fails only where an authority accessor fails (C07_recompose*). PARTIAL: consistency of the stored '
+                 'authority with the reported parts is an extracted predicate on the implementation (exhaustive delimiter strings, Unicode '
+                 'aliases of scheme characters and digits). Known finding F17.'),
         "design_ref": "DESIGN.md section 7 C07",
     },
     "C08": {
@@ -122,12 +131,12 @@ CHECKS = {
         "design_ref": "DESIGN.md section 7 C12",
     },
     "C13": {
-        "text": ('Proved: raw_parts re-compose to raw_path (every URL whose path is empty or rooted under an authority), the suffix is a '
-                 'tail of the name, u / s is definitionally u.joinpath(s), with_suffix keeps the raw stem byte for byte and appends the '
-                 'quoted suffix; for u / s with a slash-free non-dot s: the path of the child, its raw and decoded name and the parts of '
-                 "its parent (F28 refuted witness for the root path without authority). PARTIAL: joinpath associativity and with_name's "
-                 'parent are the extracted predicate c13_pred on the implementation (26 base shapes x 21 segments, all pairs) and the '
-                 'model, not proved.'),
+        "text": ('Proved: raw_parts re-compose to raw_path, the suffix is a tail of the name, u / s is u.joinpath(s), with_suffix keeps '
+                 'the raw stem byte for byte; the path, name and parent parts of u / s (F28 refuted witness); with_name(n) has name n; '
+                 'joinpath(a, c) = joinpath(a).joinpath(c) for every base URL, every pair of texts and either value of encoded whenever no '
+                 "dot-segment removal is triggered; u / 'a/c' = joinpath(a, c). PARTIAL: with_name's parent (equal only up to ==) and "
+                 'associativity with dot segments under an authority (differs through F23) are the extracted predicate c13_pred on the '
+                 'implementation (33 base shapes x 21 segments, all pairs).'),
         "design_ref": "DESIGN.md section 7 C13",
     },
     "C14": {
